@@ -115,6 +115,12 @@ def main():
                 seen[sig] = e
     for sig in sorted(dropped):
         print('dropped (must not be listed):', sig, file=sys.stderr)
+    # the innermost frame of a stack overflow differs from run to run: one glob entry
+    for sig in [k for k in seen if 'src "@infinite-recursion"' in k]:
+        e = seen.pop(sig)
+        g = 'crash:fatal error: c09 died in src "@infinite-recursion" @ *'
+        e['signature'] = g
+        seen.setdefault(g, e)
     out = []
     for sig, e in sorted(seen.items()):
         root = describe(sig, e['what'])
